@@ -454,8 +454,11 @@ def main(argv):
     ev = {
         "property_id": pid, "tier": tier, "seed": seed, "level": "proof",
         "coverage": {
-            "obligations": obligations + len(open_statements), "discharged": discharged,
-            "open_statements": open_statements,
+            # obligations = theorems of Props/<id> + tie obligations, each kernel-checked and axiom-audited on
+            # this run; statements that are NOT proved (full-strength forms that are false of the code and
+            # recorded as known findings, or still open) are listed separately and are not counted as proved.
+            "obligations": obligations, "discharged": discharged,
+            "open_statements": open_statements, "open_statement_count": len(open_statements),
             "checker_cmd": "cd lean && lake build %s && lake env lean XMT/Audit/%s.lean%s" % (" ".join(targets), pid, " && lake env leanchecker XMT.Props.%s" % pid if tier == "thorough" else ""),
             "trusted_base": cfg.get("trusted_base", []) + ["Lean 4.33.0 kernel", "axioms: propext, Classical.choice, Quot.sound only (audited by #print axioms on this run)",
                                                            "hand-written model tied to /repo by (i) regenerated Facts.lean, (ii) differential run xmth<->xmtmodel, (iii) direct oracles on the real code"],
@@ -483,7 +486,7 @@ def main(argv):
     if stale:
         log("note: known findings not reproduced this run (stale?):", stale)
     log("%s %s seed=%d: theorems=%d/%d evals=%s model-ops=%s diffs=%d oracle-fails=%d violations=%d wall=%.1fs" % (
-        pid, tier, seed, discharged, obligations + len(open_statements), stats.get("evaluations"), stats.get("op_lines"), ndiff, len(oracle_fails), len(violations), wall))
+        pid, tier, seed, discharged, obligations, stats.get("evaluations"), stats.get("op_lines"), ndiff, len(oracle_fails), len(violations), wall))
     if not violations and os.path.isdir(rundir):
         shutil.rmtree(rundir, ignore_errors=True)
     return 1 if violations else 0
